@@ -91,6 +91,8 @@ class World:
         self.me = Obj('ZMQReceiver', client_id='c', balance=shape.balance, low_latency=False, prev_id=z3.Int('prev_id0'),
                       senders={s.f['sub']: s for s in self.senders}, poller=self.poller, message_oob=Native(lambda ex_, m: None, 'message_oob'))
         self.assum = [self.senders[j].f['_src'] != self.senders[k].f['_src'] for k in range(shape.S) for j in range(k)]
+        # an explicit subscription names at least one topic (Filter.parse_topics yields None, never an empty list, for a source without topics)
+        self.assum += [s.f['_subk'][z3.Const(f'subscribed_topic{k}', Topic)] for k, s in enumerate(self.senders) if s.f['_mode'] == 'explicit']
         self.assum.append(DASH != EMPTY)
 
     def new_poller(self, ex, symbolic=False):
@@ -128,6 +130,9 @@ class World:
                 continue
             if not self.shape.balance:
                 out.append((f'C01.RInv(source{k}): entries are C(src, min_recv_id, .) and the key set is what the subscription allows', inv_sender(s, m)))
+                comp_, _ = complete_or_nothing(s)
+                out.append((f'C03.no_loss(source{k}): a source whose part of the current set is complete is not polled until the set is handed out (its newer frames wait in the queue '
+                            'instead of replacing the held part, which would lose this frame at the join)', z3.Implies(comp_, z3.Not(poller.f['reg'][s.f['sub']]))))
             else:
                 others = [z3.And(z3.Not(active(o)), z3.Not(poller.f['reg'][o.f['sub']])) for o in self.senders if o is not s]
                 out.append((f'C07.RInv(balanced source{k}): single id, single active source, the others unregistered',
@@ -453,6 +458,10 @@ class RecvUnit(Unit):
         logging.disable(logging.CRITICAL)
         from replay_drivers import zmq_history
         info = failure['extra']
+        if 'no_loss' in failure.get('obligation', ''):
+            obs = zmq_history.lost_frame_check()
+            return {'confirmed': bool(obs), 'inputs': 'a join whose fast branch runs one frame ahead while recv() is retried after timeouts', 'observed': obs or 'frame 1 is handed out before anything newer',
+                    'required': 'no frame that every branch delivered is lost at the join'}
         if 'eph_flag' in failure.get('obligation', ''):
             # native: sources of mixed kinds in every order; each request must say `eph` exactly for the ephemeral sources
             import itertools, json
